@@ -239,3 +239,8 @@ def shrink(case):
             yield dict(case, g=h, qs=qs, ps=ps)
         else:
             yield dict(case, g=h)
+
+
+# tie (T) for the local predicates (translator/predicates.py -> Gen/Gen_Preds.v -> Tie/Preds_C16.v): pre_build, extra, replay of cells
+import tie_preds  # noqa: E402
+tie_preds.install(globals(), PROP)
